@@ -202,7 +202,8 @@ def replay(w):
             before = len(_children())
             res = raised = None
             try:
-                kw = dict(window_size=1, num_clusters=K, iteration_limit=2, min_cluster_size=m, sparsity_weight=0.1,
+                kw = dict(window_size=1, num_clusters=K, iteration_limit=2,
+                          min_cluster_size=np.uint8(m) if nt.get('m_form') == 'np.uint8' else m, sparsity_weight=0.1,
                           label_switching_cost=1.0, biased_covariance=True)
                 if joint:
                     cut = max(1, P // 2)
